@@ -247,15 +247,46 @@ def mkst(st):
     return {c: mkcoef(cj) for c, cj in st}
 
 
+SUR_OBJS: dict = {}  # surrogate objects the caller of the model keeps hold of (per history): tag -> object
+
+
+def reset_objects():
+    SUR_OBJS.clear()
+
+
 def mksur(sj, arity=0):
+    """a surrogate object for the wire form; `"tag": t` = the caller keeps the object, `"alias": t` = the caller passes
+    THAT VERY object again (a new one with the same content when the tagged op is not part of the history)"""
     from mxlpy.surrogates import qss
 
-    return qss.Surrogate(
+    if "alias" in sj and sj["alias"] in SUR_OBJS:
+        return SUR_OBJS[sj["alias"]]
+    obj = qss.Surrogate(
         model=mkmulti(sj["es"], max(len(sj["args"]), arity)),
         args=list(sj["args"]),
         outputs=list(sj["outs"]),
         stoichiometries={f: mkst(st) for f, st in sj["st"]},
     )
+    if "tag" in sj:
+        SUR_OBJS[sj["tag"]] = obj
+    return obj
+
+
+def resolve_aliases(ops):
+    """the history as the Lean model and the oracles read it: objects are values, so passing a kept object again is
+    passing its ORIGINAL content (a model must not write into an object its caller holds)"""
+    tagged, out = {}, []
+    for op in ops:
+        if op[0] in ("add_surrogate", "update_surrogate") and isinstance(op[2], dict) and ("tag" in op[2] or "alias" in op[2]):
+            d = dict(op[2])
+            t, a = d.pop("tag", None), d.pop("alias", None)
+            if a is not None and a in tagged:
+                d = dict(tagged[a])
+            if t is not None:
+                tagged[t] = dict(d)
+            op = [op[0], op[1], d] + list(op[3:])
+        out.append(op)
+    return out
 
 
 def cur_state(m, vals):
@@ -265,8 +296,46 @@ def cur_state(m, vals):
     return {k: F(vals[i % len(vals)]) for i, k in enumerate(names)}
 
 
-def run_query(m, q):
-    """q = ["q", kind, ...] -> canonical answer"""
+class _Rec:
+    """the real model behind a recorder: every PUBLIC method / property the query code reaches for is written down, so
+    that the harness can say which entry point of `Model` a query form exercised (compared with the Lean table
+    `Query.entry`)"""
+
+    def __init__(self, m, log):
+        object.__setattr__(self, "_m", m)
+        object.__setattr__(self, "_log", log)
+
+    def __getattr__(self, name):
+        if not name.startswith("_"):
+            self._log.append(name)
+        return getattr(self._m, name)
+
+    def __call__(self, *a, **kw):
+        self._log.append("__call__")
+        return self._m(*a, **kw)
+
+    def __eq__(self, other):
+        self._log.append("__eq__")
+        return self._m == other
+
+    __hash__ = None
+
+
+LAST_ENTRY = [None]  # the first public entry point the last `run_query` reached for
+
+
+def run_query(m0, q):
+    """q = ["q", kind, ...] -> canonical answer.  `m` is the recorder around the model (principal calls), `m0` the model
+    itself (auxiliary calls that only shape the arguments)"""
+    log: list = []
+    m = _Rec(m0, log)
+    try:
+        return _run_query(m, m0, q)
+    finally:
+        LAST_ENTRY[0] = log[0] if log else None
+
+
+def _run_query(m, m0, q):
     try:
         kind = q[1]
         if kind == "init":
@@ -308,7 +377,7 @@ def run_query(m, q):
         if kind == "argnames":
             return {"ok": list(m.get_arg_names(**flags_kw(q[2])))}
         if kind == "argsf":
-            s = m.get_args(cur_state(m, q[2]), F(q[3]), **flags_kw(q[4]))
+            s = m.get_args(cur_state(m0, q[2]), F(q[3]), **flags_kw(q[4]))
             return {"ok": [[k, C.num(v)] for k, v in s.items()]}
         if kind == "rawstoich":
             from mxlpy.types import Derived
@@ -317,29 +386,29 @@ def run_query(m, q):
             return {"ok": [[k, {"args": list(v.args)} if isinstance(v, Derived) else {"c": C.num(v)}]
                            for k, v in d.items()]}
         if kind == "argstc":
-            return {"ok": frame_rows(m.get_args_time_course(tc_frame(m, q[2]), **flags_kw(q[3], skip_time=True)))}
+            return {"ok": frame_rows(m.get_args_time_course(tc_frame(m0, q[2]), **flags_kw(q[3], skip_time=True)))}
         if kind == "fluxestc":
-            return {"ok": frame_rows(m.get_fluxes_time_course(tc_frame(m, q[2])))}
+            return {"ok": frame_rows(m.get_fluxes_time_course(tc_frame(m0, q[2])))}
         if kind == "rhstc":
-            return {"ok": frame_rows(m.get_right_hand_side_time_course(m.get_args_time_course(tc_frame(m, q[2]))))}
+            return {"ok": frame_rows(m.get_right_hand_side_time_course(m0.get_args_time_course(tc_frame(m0, q[2]))))}
         if kind == "eq":
             # a newly built model with the same content; units / sources (not part of the wire form) are carried over
-            f = fresh_model(snapshot(m))
+            f = fresh_model(snapshot(m0))
             for a in ("_variables", "_parameters", "_derived", "_readouts", "_reactions"):
-                for k_, v in getattr(m, a).items():
+                for k_, v in getattr(m0, a).items():
                     w = getattr(f, a)[k_]
                     for attr in ("unit", "source"):
                         if hasattr(v, attr):
                             setattr(w, attr, getattr(v, attr))
             return {"ok": bool(m == f)}
         if kind == "stoichvar":
-            d = m.get_stoichiometries_of_variable(q[2], cur_state(m, q[3]), F(q[4]))
+            d = m.get_stoichiometries_of_variable(q[2], cur_state(m0, q[3]), F(q[4]))
             return {"ok": sorted([k, C.num(v)] for k, v in d.items())}
         if kind == "call":
-            names = m.get_variable_names()
+            names = m0.get_variable_names()
             xs = [F(q[3][i % len(q[3])]) for i in range(len(names))]
             return {"ok": [C.num(v) for v in m(F(q[2]), xs)]}
-        st, t = cur_state(m, q[2]), F(q[3])
+        st, t = cur_state(m0, q[2]), F(q[3])
         if kind == "args":
             s = m.get_args(st, t)
             return {"ok": sorted([k, C.num(v)] for k, v in s.items())}
